@@ -175,39 +175,9 @@ def _lex_key(ctx: Ctx, ci: ClassInfo) -> Optional[List[str]]:
 # C11.2 event pairing
 
 
-def event_pairing(ctx: Ctx) -> None:
+def warp_union(ctx: Ctx) -> None:
+    """Overlapping or touching warps act as their union: _coalesce_warps as a decision table per warp."""
     p = ctx.p
-    f = p.func(f"{TE}._retime_events")
-    sn = f.param_names()[0]
-    loc = locals_of(f)
-    from .tables import list_items, sums_of as tsums0
-    fsums = tsums0(ctx, f)
-    require(bool(fsums), f"{f.fq}: no path")
-    s0 = max(fsums, key=lambda s_: len(s_.effects))
-    cands = {}
-    for nm in {e.target.id for e in s0.effects if e.kind == "bind" and isinstance(e.target, ast.Name)}:
-        it = list_items(s0, nm)
-        if it and any(k == "elem" and isinstance(e, ast.Tuple) and len(e.elts) == 2 and "EventTag." in ast.unparse(e.elts[1]) for k, e in it):
-            cands[nm] = it
-    require(len(cands) == 1, f"{f.fq}: expected exactly one list of (events, tag) pairs, found {sorted(cands)}")
-    lname, items = next(iter(cands.items()))
-    pairs = []
-    starred = []
-    for k, e in items:
-        if k == "splice":
-            starred.append(ast.unparse(e))
-            continue
-        require(isinstance(e, ast.Tuple) and len(e.elts) == 2, f"{f.fq}: pair {src(e)} has an unrecognised shape")
-        s0_ = e.elts[0]
-        if isinstance(s0_, ast.Call) and isinstance(s0_.func, ast.Name) and s0_.func.id == "cast" and len(s0_.args) == 2:
-            s0_ = s0_.args[1]
-        t = try_ev(ctx, f, e.elts[1])
-        pairs.append((ast.unparse(s0_), t.name if isinstance(t, EnumVal) else src(e.elts[1])))
-    spec = [(f"{sn}.timing_data.bpms[1:]", "BPM"), (f"{sn}.timing_data.delays", "DELAY"), (f"{sn}.timing_data.delays", "DELAY_END"),
-            (f"{sn}.timing_data.stops", "STOP"), (f"{sn}.timing_data.stops", "STOP_END")]
-    ctx.expect("R-TABLE", f, "event lists are paired with their tags (bpms[1:]/BPM, delays/DELAY+DELAY_END, stops/STOP+STOP_END)", sorted(pairs) == sorted(spec), str(pairs),
-               f"pairs are {pairs}; expected {spec}", node=f.node)
-    ctx.expect("R-TABLE", f, "coalesced warps are part of the event stream", starred == [f"{sn}._coalesce_warps()"], str(starred), f"starred: {starred}", node=f.node)
     # _coalesce_warps returns [(starts, WARP), (ends, WARP_END)]; per warp: extend the last segment, or leave it, or start a new one
     cw = p.func(f"{TE}._coalesce_warps")
     from .tables import judge as tjudge, loop_decs, sums_of as tsums
@@ -271,6 +241,42 @@ def event_pairing(ctx: Ctx) -> None:
             tjudge(ctx, "R-TABLE", cw, "overlapping or touching warps act as their union: a warp starting at or before the last end extends it when it ends later (<=, >); any other warp starts a new segment", decs,
                    [A, Bc, C], spec, equiv=eqv,
                    why="the WARP / WARP_END events must alternate and cover exactly the union of the warps")
+
+
+def event_pairing(ctx: Ctx) -> None:
+    p = ctx.p
+    f = p.func(f"{TE}._retime_events")
+    sn = f.param_names()[0]
+    loc = locals_of(f)
+    from .tables import list_items, sums_of as tsums0
+    fsums = tsums0(ctx, f)
+    require(bool(fsums), f"{f.fq}: no path")
+    s0 = max(fsums, key=lambda s_: len(s_.effects))
+    cands = {}
+    for nm in {e.target.id for e in s0.effects if e.kind == "bind" and isinstance(e.target, ast.Name)}:
+        it = list_items(s0, nm)
+        if it and any(k == "elem" and isinstance(e, ast.Tuple) and len(e.elts) == 2 and "EventTag." in ast.unparse(e.elts[1]) for k, e in it):
+            cands[nm] = it
+    require(len(cands) == 1, f"{f.fq}: expected exactly one list of (events, tag) pairs, found {sorted(cands)}")
+    lname, items = next(iter(cands.items()))
+    pairs = []
+    starred = []
+    for k, e in items:
+        if k == "splice":
+            starred.append(ast.unparse(e))
+            continue
+        require(isinstance(e, ast.Tuple) and len(e.elts) == 2, f"{f.fq}: pair {src(e)} has an unrecognised shape")
+        s0_ = e.elts[0]
+        if isinstance(s0_, ast.Call) and isinstance(s0_.func, ast.Name) and s0_.func.id == "cast" and len(s0_.args) == 2:
+            s0_ = s0_.args[1]
+        t = try_ev(ctx, f, e.elts[1])
+        pairs.append((ast.unparse(s0_), t.name if isinstance(t, EnumVal) else src(e.elts[1])))
+    spec = [(f"{sn}.timing_data.bpms[1:]", "BPM"), (f"{sn}.timing_data.delays", "DELAY"), (f"{sn}.timing_data.delays", "DELAY_END"),
+            (f"{sn}.timing_data.stops", "STOP"), (f"{sn}.timing_data.stops", "STOP_END")]
+    ctx.expect("R-TABLE", f, "event lists are paired with their tags (bpms[1:]/BPM, delays/DELAY+DELAY_END, stops/STOP+STOP_END)", sorted(pairs) == sorted(spec), str(pairs),
+               f"pairs are {pairs}; expected {spec}", node=f.node)
+    ctx.expect("R-TABLE", f, "coalesced warps are part of the event stream", starred == [f"{sn}._coalesce_warps()"], str(starred), f"starred: {starred}", node=f.node)
+    warp_union(ctx)
     # initial state
     cons = record_constructions(ctx, f, f"{ENG}.TimingState")
     c = one(cons, f"initial TimingState in {f.fq}")
